@@ -21,7 +21,7 @@ CaseOf(t) == [orig |-> Cases[t].orig, origk |-> Cases[t].origk, origpay |-> Case
 Verdict(t, i) ==
   LET s == StateOf(t, i)
       nm == StageOf(t, i).name
-  IN IF Which = "C04" THEN FailedWF(s)
+  IN IF Which = "C04" THEN FailedWF(s) \cup (IF "bp" \in DOMAIN StageOf(t, i) /\ ~WfBackPointers(StageOf(t, i).bp, s) THEN {"BackPointer"} ELSE {})
      ELSE IF Which = "C05" THEN FailedCV(CaseOf(t), s, nm # "input")
      ELSE IF Which = "C06" THEN FailedTables(s.H)
      ELSE IF Which = "C16" THEN FailedViews(StageOf(t, i).hook, s)
